@@ -14,6 +14,7 @@ import copy
 
 from checks import common
 from simkit import programs
+from simkit.loop import TickLimit
 from simkit.runner import Result
 
 PROPERTY = 'C10'
@@ -173,9 +174,13 @@ def run(case):
     try:
         if not engine.start():
             raise RuntimeError(f'construction failed: {engine.construct_error!r}')
-        engine.run_schedule()
-        drive = engine.drive_out()
-        _oracle(engine, result, case, drive)
+        try:
+            engine.run_schedule()
+            drive = engine.drive_out()
+        except TickLimit as exc:
+            result.violate('spurious_failure', 'runaway', f'the run does not come to rest: {exc}')
+        else:
+            _oracle(engine, result, case, drive)
         common.finish_result(engine, result)
     finally:
         common.close_engine(engine)
